@@ -11,7 +11,11 @@ from pandas import DataFrame, Series, isna, notna, unique
 from sklearn.base import BaseEstimator, TransformerMixin
 
 from .grouped_list import GroupedList
-from .serialization import json_deserialize_values_orders, json_serialize_values_orders
+from .serialization import (
+    json_deserialize_values_orders,
+    json_serialize_history,
+    json_serialize_values_orders,
+)
 
 
 class BaseDiscretizer(BaseEstimator, TransformerMixin):
@@ -582,7 +586,7 @@ class BaseDiscretizer(BaseEstimator, TransformerMixin):
             JSON serialized object
         """
         # extracting content dictionnaries
-        return {
+        json_serialized_discretizer = {
             "features": self.features,
             "values_orders": json_serialize_values_orders(self.values_orders),
             "features_casting": self.features_casting,
@@ -594,6 +598,12 @@ class BaseDiscretizer(BaseEstimator, TransformerMixin):
             "features_dropna": self.features_dropna,
             "copy": self.copy,
         }
+
+        # adding history of loaded carvers
+        if self._history is not None:
+            json_serialized_discretizer.update({"_history": json_serialize_history(self._history)})
+
+        return json_serialized_discretizer
 
     def history(self, feature: str = None) -> DataFrame:
         """Historic of tested combinations and there association with the target.
